@@ -554,6 +554,7 @@ class Module:
         self._src_cache: Dict[str, List[str]] = {}
         self.promoteds: Dict[str, Function] = {}
         self.const_values: Dict[str, str] = {}  # single-line consts: name -> literal text
+        self.static_allocs: Dict[str, str] = {}  # allocN -> static item name
         self._parse(text)
         self._index()
 
@@ -587,6 +588,9 @@ class Module:
                     pass
                 i = j + 1
             else:
+                m = re.match(r"^(alloc\d+) \(static: ([^,]+),", ln)
+                if m:
+                    self.static_allocs[m.group(1)] = m.group(2).strip()
                 m = re.match(r"^(?:const|static) (\S+): (.*) = const (.*);$", ln)
                 if m:
                     self.const_values[m.group(1)] = m.group(3)
